@@ -1,12 +1,12 @@
-\* one client, root + 2 child tasks, 4 contexts, depth 3, 3 wire requests: repaired propagation, the property holds
+\* composite shape: one client, 3 concurrent child tasks (streams), depth 2
 SPECIFICATION Spec
 CONSTANTS
-  Tasks <- T3
+  Tasks <- T4
   Roots <- R1
   MaxCtx = 4
   MaxWire = 3
-  MaxDepth = 3
-  MaxKids = 2
+  MaxDepth = 2
+  MaxKids = 3
   MaxChunks = 0
   MinMaxPropagation = TRUE
 VIEW view
